@@ -160,6 +160,19 @@ def _concat_keys(tier):
     return cases, fails, bound
 
 
+def _fuzz(tier):
+    import os
+    from harness import fuzz_pipelines
+    seed = int(os.environ.get('VERIF_SEED', '0') or 0)
+    c, f = fuzz_pipelines.search(tier, seed)
+    return c, f, ('%d random pipelines of depth 1..4 (seed %d) over sources of 0..5 examples from 24 operations (map, slices, masks, '
+                  'key lists, concatenate, tile, zip, key_zip, items, batch, unbatch, lazy/eager filter, sort, cache, copy, prefetch, '
+                  'split/shard, intersperse, snapshots, cached-state queries); complete observation vs the eager reference'
+                  % (250 if tier == 'quick' else 2500, seed))
+
+
+EXTRA_FUZZ = [('bounded-pipeline-fuzz', _fuzz)]
+
 EXTRA_MORE = {
     'C02': [('bounded-offered-lengths', _mk('offered_lengths', 'sources of 0,1,2,5,8 examples; lazy apply (slice / eager filter / tile / shuffle), filter, catch, unbatch, reshuffle, local shuffle, prefetch, dynamic buckets, each also under map / batch / local shuffle: len() is refused or equals the iteration count')),
             ('bounded-numpy-indices', _mk('numpy_indices', '18 pipelines over 300 examples, 28 boundary indices, np.int8/uint8/int16 (quick) plus uint16/int32/int64 (thorough): ds[dtype(i)] equals ds[int(i)]'))],
@@ -239,7 +252,8 @@ def main():
                         'bound': 'source lengths 0..6 and the parameter grid of harness/scenarios.py',
                         'failures': (unexplained or fl)[:5],
                         'known_finding_cases': len(fl) - len(unexplained)})
-        for name, fn in EXTRA.get(a.prop, []) + EXTRA_MORE.get(a.prop, []) + (EXTRA_INIT if a.prop in ('C01', 'C02') else []) + (EXTRA_KEYS if a.prop in ('C03', 'C01') else []):
+        os.environ['VERIF_SEED'] = str(a.seed)
+        for name, fn in EXTRA.get(a.prop, []) + EXTRA_MORE.get(a.prop, []) + (EXTRA_INIT if a.prop in ('C01', 'C02') else []) + (EXTRA_KEYS if a.prop in ('C03', 'C01') else []) + (EXTRA_FUZZ if a.prop in ('C01', 'C02', 'C03', 'C16') else []):
             cases, fails, bound = fn(a.tier)
             out.append({'name': name, 'kind': 'bounded', 'cases': cases, 'bound': bound, 'failures': fails[:5],
                         'known_finding_cases': 0})
